@@ -205,6 +205,25 @@ class Prop(common.PropertyCheck):
         for _ in range(self.budget(4000, 60000)):
             N, D = rng.randrange(1, 7), rng.randrange(1, 6)
             yield {'N': N, 'D': D, 'keys': [[self.rand_row(N), self.rand_col(D)]], 'set': rng.random() < 0.3}
+        # assignments whose addressed block is square (as many events as channels): items run along the channels
+        for k in (2, 3, 4):
+            for N, D in ((k, k), (k + 3, k + 1), (k, 5)):
+                for a in range(0, N - k + 1):
+                    cols = list(range(D)); rng.shuffle(cols)
+                    ck = {'t': 'list', 'v': [({'t': 'name', 'v': 'ch%d' % c} if (c + a) % 2 else {'t': 'pos', 'v': c}) for c in cols[:k]]}
+                    yield {'N': N, 'D': D, 'keys': [[{'t': 'slice', 'v': [a, a + k, None]}, ck]], 'set': True}
+                    yield {'N': N, 'D': D, 'keys': [[{'t': 'ints', 'v': list(range(a, a + k))}, ck]], 'set': True}
+                    yield {'N': N, 'D': D, 'keys': [[{'t': 'slice', 'v': [a, a + k, None]}, {'t': 'slice', 'v': [0, k, None]}]], 'set': True}
+        # histories: an indexing that NumPy refuses (caught by the caller), then expressions on the same sample
+        fails = [[{'t': 'int', 'v': 99}, {'t': 'name', 'v': 'ch0'}], [{'t': 'ints', 'v': [0, 99]}, {'t': 'pos', 'v': 0}],
+                 [{'t': 'mask', 'v': [True] * 9}, {'t': 'list', 'v': [{'t': 'name', 'v': 'ch1'}]}], [{'t': 'int', 'v': 0}, {'t': 'name', 'v': 'zz'}],
+                 [{'t': 'slice', 'v': [None, None, None]}, {'t': 'pos', 'v': 17}]]
+        for i in range(self.budget(30, 300)):
+            N, D = rng.randrange(2, 7), rng.randrange(2, 6)
+            after = [[self.rand_row(N), {'t': 'rowonly'}]] if i % 2 == 0 else [[self.rand_row(N), self.rand_col(D)]]
+            if i % 3 == 0:
+                after.append([{'t': 'slice', 'v': [None, None, None]}, self.rand_col(D)])
+            yield {'N': N, 'D': D, 'keys': after, 'pre_fail': fails[i % len(fails)], 'fresh': True}
         for _ in range(self.budget(3000, 40000)):
             N, D = rng.randrange(2, 7), rng.randrange(2, 6)
             keys = []
@@ -248,8 +267,14 @@ class Prop(common.PropertyCheck):
 
     def run_impl(self, case):
         N, D = case['N'], case['D']
-        parent = self.sample(N, D)
+        parent = make_sample(N, D) if case.get('fresh') else self.sample(N, D)
         cur = parent
+        if case.get('pre_fail'):
+            try:
+                idx(parent, *case['pre_fail'])
+                return {'skip': 'the preliminary key was accepted'}
+            except Exception:
+                pass
         if case.get('touch'):
             # an unrelated name-based query on the parent before the chain
             try:
@@ -258,16 +283,28 @@ class Prop(common.PropertyCheck):
                 pass
         # independent expectation for chains: plain provenance array + names tracked by hand
         exp = None
+        last = (False, None)
         if len(case['keys']) > 1:
             exp = self.plain_chain(case, parent)
         try:
             for rk, ck in case['keys']:
                 if not isinstance(cur, FlowCal.io.FCSData) or cur.ndim != 2:
                     return {'skip': 'intermediate result is not a 2-D sample'}
+                last = (cur is parent, [rk, ck])
                 cur = idx(cur, rk, ck)
         except Exception as e:
+            if last[0] and not case.get('fresh'):
+                self._refused = getattr(self, '_refused', {})
+                self._refused[(N, D)] = last[1]          # the cached sample has seen a refused key
             return {'err': type(e).__name__, 'msg': str(e)[:80]}
-        out = self.fingerprint(cur, parent, D)
+        try:
+            out = self.fingerprint(cur, parent, D)
+        except AttributeError as e:
+            if not case.get('fresh') and getattr(self, '_refused', {}).get((N, D)):
+                # the sample object is shared between cases: record the refused key it saw earlier, so that the case replays on its own
+                case['pre_fail'] = self._refused[(N, D)]
+                case['fresh'] = True
+            return {'meta_err': 'the result of %s carries no channel metadata (%s)' % (case['keys'], str(e)[:80])}
         if exp is not None:
             out['chain_plain'] = exp
         if len(case['keys']) == 1:
@@ -294,6 +331,35 @@ class Prop(common.PropertyCheck):
                     out['set_meta_same'] = (w.channels == parent.channels and w.range() == parent.range())
                 except Exception as e:
                     out['set_err'] = type(e).__name__
+                # array items: a full block, and one value per addressed channel; plain array assignment with the column positions is the reference
+                if out.get('plain') and 'shape' in out['plain'] and len(out['plain']['shape']) >= 1 and 0 not in out['plain']['shape']:
+                    shp = out['plain']['shape']
+                    items = {'block': (40000 + np.arange(int(np.prod(shp)))).reshape(shp)}
+                    if len(shp) == 2:
+                        items['per_channel'] = 50000 + np.arange(shp[1])
+                        items['per_event'] = (52000 + np.arange(shp[0])).reshape(shp[0], 1)
+                    res = {}
+                    for nm, item in sorted(items.items()):
+                        pw = before.copy()
+                        try:
+                            if pc == ROWONLY:
+                                pw[to_py_row(rk)] = item
+                            else:
+                                pw[to_py_row(rk), pc] = item
+                        except Exception:
+                            continue            # plain assignment refuses this item shape: nothing to compare
+                        w2 = parent.copy()
+                        try:
+                            if ck['t'] == 'rowonly':
+                                w2[to_py_row(rk)] = item
+                            else:
+                                w2[to_py_row(rk), to_py_col(ck)] = item
+                            diff = np.argwhere(np.asarray(w2) != pw)
+                            res[nm] = None if len(diff) == 0 else 'cell (%d, %d) holds %d, plain array assignment puts %d there' % (
+                                diff[0][0], diff[0][1], int(np.asarray(w2)[tuple(diff[0])]), int(pw[tuple(diff[0])]))
+                        except Exception as e:
+                            res[nm] = 'raised %s: %s' % (type(e).__name__, str(e)[:60])
+                    out['set_items'] = res
         return out
 
     def post(self):
@@ -360,6 +426,8 @@ class Prop(common.PropertyCheck):
         if impl.get('skip'):
             return None
         single = len(case['keys']) == 1
+        if impl.get('meta_err'):
+            return impl['meta_err'] + (' after the refused indexing %s on the same sample' % (case['pre_fail'],) if case.get('pre_fail') else '')
         if 'err' in impl:
             if single:
                 rk, ck = case['keys'][0]
@@ -402,13 +470,16 @@ class Prop(common.PropertyCheck):
                     return 'assignment through %s wrote cells %s, addressed cells are %s' % (case['keys'][0], impl['set_changed'], want)
                 if not impl['set_meta_same']:
                     return 'assignment changed metadata'
+            for nm, m in sorted((impl.get('set_items') or {}).items()):
+                if m:
+                    return 'assignment of a %s item through %s: %s' % (nm, case['keys'][0], m)
             if 'set_err' in impl:
                 return 'assignment through readable key %s raised %s' % (case['keys'][0], impl['set_err'])
         return None
 
     # ---- model ----------------------------------------------------------------------
     def model_request(self, case, impl):
-        if len(case['keys']) != 1 or impl.get('skip'):
+        if len(case['keys']) != 1 or impl.get('skip') or impl.get('meta_err'):
             return None
         rk, ck = case['keys'][0]
         if ck['t'] == 'rowonly':
@@ -449,7 +520,7 @@ class Prop(common.PropertyCheck):
         return None
 
     def nontrivial_key(self, case, impl):
-        if impl.get('skip'):
+        if impl.get('skip') or impl.get('meta_err'):
             return None
         kinds = tuple((rk['t'], ck['t'] if ck['t'] != 'list' else 'list%d' % min(len(ck['v']), 3)) for rk, ck in case['keys'])
         res = 'err' if 'err' in impl else impl['kind'] + str(len(impl.get('shape', [])))
